@@ -1202,6 +1202,9 @@ class Frame(ContainerOperand):
                     if dtype is not None:
                         array_final = array_final.astype(dtype)
 
+                if array_final.base is not None and array_final.flags.writeable:
+                    # a view of the source array: do not keep a buffer the caller can write to
+                    array_final = array_final.copy()
                 array_final.flags.writeable = False
 
                 if col_idx >= index_start_pos and col_idx <= index_end_pos:
